@@ -25,11 +25,11 @@ structure WInv (c : Conf) (pre : Bytes) (st : HState) : Prop where
   unsent : st.statusSent = none → st.headersSent = none ∧ st.wire = pre ∧ st.pieces = [] ∧ st.chunk = false
   sent : ∀ s, st.statusSent = some s → ∃ h, st.headersSent = some h ∧
     st.chunk = (respOf c s h).chunked ∧ st.wire = pre ++ (respOf c s h).head ++ framesOf st.chunk st.pieces
-  /-- once a non-empty header list was sent, `headers_set` cannot be replaced any more -/
-  frozen : truthy st.headersSent = true → st.headersSet = st.headersSent
+  /-- once a header list was sent, `headers_set` cannot be replaced any more -/
+  frozen : st.headersSent.isSome = true → st.headersSet = st.headersSent
 
 theorem WInv.fresh (c : Conf) (pre : Bytes) : WInv c pre { wire := pre } := by
-  constructor <;> simp [truthy]
+  constructor <;> simp
 
 /-- once the head is out, the sent status / headers / framing decision never change -/
 structure Stable (st st' : HState) : Prop where
@@ -53,16 +53,16 @@ theorem step_inv {c : Conf} {pre : Bytes} {st st' : HState} {e : Ev} (h : WInv c
   cases e with
   | start status headers exc =>
     have key : st' = { st with statusSet := some status, headersSet := some headers } ∧
-        (truthy st.headersSent = true → False) := by
+        (st.headersSent.isSome = true → False) := by
       simp only [step] at hs
       by_cases hx : exc = true
       · simp only [hx, if_true] at hs
-        by_cases ht : truthy st.headersSent = true
+        by_cases ht : st.headersSent.isSome = true
         · simp [ht] at hs
         · simp only [ht, Bool.false_eq_true, if_false, Option.some.injEq] at hs
           exact ⟨hs.symm, ht⟩
       · simp only [hx, Bool.false_eq_true, if_false] at hs
-        by_cases ht : truthy st.headersSet = true
+        by_cases ht : st.headersSet.isSome = true
         · simp [ht] at hs
         · simp only [ht, Bool.false_eq_true, if_false, Option.some.injEq] at hs
           refine ⟨hs.symm, fun hsent => ?_⟩
@@ -159,16 +159,16 @@ theorem execute_spec {c : Conf} {pre : Bytes} (st : HState) (a : AppRun) (h : WI
       exact ⟨s1.trans s2, fun _ => h2, fun hf => by simp at hf⟩
     · simp only [hi, Bool.false_eq_true, if_false]
       -- the closing `write(b"")`
-      have hfin : ∀ st3, (if truthy st2.headersSent = true then some st2 else step c st2 (.emit [])) = some st3 →
+      have hfin : ∀ st3, (if st2.headersSent.isSome = true then some st2 else step c st2 (.emit [])) = some st3 →
           WInv c pre st3 ∧ Stable st2 st3 ∧ st3.statusSent.isSome = true := by
         intro st3 h3
-        by_cases ht : truthy st2.headersSent = true
+        by_cases ht : st2.headersSent.isSome = true
         · simp only [ht, if_true, Option.some.injEq] at h3
           subst h3
           refine ⟨h2, Stable.refl _, ?_⟩
           cases hss : st2.statusSent with
           | some s => rfl
-          | none => rw [(h2.unsent hss).1] at ht; simp [truthy] at ht
+          | none => rw [(h2.unsent hss).1] at ht; simp at ht
         · simp only [ht, Bool.false_eq_true, if_false] at h3
           obtain ⟨h4, s4⟩ := step_inv h2 h3
           refine ⟨h4, s4, ?_⟩
@@ -182,7 +182,7 @@ theorem execute_spec {c : Conf} {pre : Bytes} (st : HState) (a : AppRun) (h : WI
               simp only [hss, hhs, Option.some.injEq] at h3
               subst h3
               cases hsent : st2.statusSent <;> simp [hsent]
-      cases hm : (if truthy st2.headersSent = true then some st2 else step c st2 (.emit [])) with
+      cases hm : (if st2.headersSent.isSome = true then some st2 else step c st2 (.emit [])) with
       | none => exact ⟨s1.trans s2, fun _ => h2, fun hf => by simp at hf⟩
       | some st3 =>
         obtain ⟨h3, s3, hsome⟩ := hfin st3 hm
@@ -271,11 +271,11 @@ theorem execute_pieces {c : Conf} (st : HState) (a : AppRun) (h : (execute c st 
       rw [hr1] at p1
       rw [hr2] at p2
       simp only at p1 p2
-      cases hm : (if truthy st2.headersSent = true then some st2 else step c st2 (.emit [])) with
+      cases hm : (if st2.headersSent.isSome = true then some st2 else step c st2 (.emit [])) with
       | none => simp [hm] at h
       | some st3 =>
         simp only
-        by_cases ht : truthy st2.headersSent = true
+        by_cases ht : st2.headersSent.isSome = true
         · simp only [ht, if_true, Option.some.injEq] at hm
           subst hm
           rw [p2, p1, emitsOf_append, List.append_assoc]
